@@ -377,6 +377,64 @@ def rule_e(model, rep):
         rep.check(ok, R, site(C, q), "; ".join(ast.unparse(s_)[:60] for s_ in stores), "steady-state context lookups only fill idempotent caches")
 
 
+MUTATORS = {"append", "extend", "add", "update", "insert", "setdefault", "pop", "remove", "clear", "sort", "reverse", "discard", "popitem"}
+
+
+def rule_f(model, rep):
+    """an entry of a cache that other threads read without a lock (per-category record lists, handler / digest / wordset caches) is stored
+    complete: once `cache[key] = value` has run another thread may pick `value` up, so the function must not go on filling it"""
+    R = "C19.f-publish-complete"
+    n = 0
+    for un, unit in model.units.items():
+        if not un.startswith(("passlib.", "libpass.")) or un.startswith("passlib.ext"):
+            continue
+        module_names = set(unit.assigns)
+        for q, fn in unit.functions():
+            short = q.split(".")[-1]
+            if short == "__init__" or short.startswith("_init_"):
+                continue    # the object is still under construction, not yet shared
+            nodes = list(walk_no_nested(fn))
+            alias = {t.id for a in nodes if isinstance(a, ast.Assign) and isinstance(a.value, ast.Attribute) and isinstance(a.value.value, ast.Name) and a.value.value.id in ("self", "cls")
+                     for t in a.targets if isinstance(t, ast.Name)}
+            declared_global = {nm for st in nodes if isinstance(st, ast.Global) for nm in st.names}
+            local_stores = {t.id for a in nodes if isinstance(a, ast.Assign) for t in a.targets if isinstance(t, ast.Name)} | {a.arg for a in fn.args.args}
+            for a in nodes:
+                if not isinstance(a, ast.Assign):
+                    continue
+                shared = []
+                for tg in a.targets:
+                    if isinstance(tg, ast.Subscript):
+                        base = tg.value
+                        if isinstance(base, ast.Attribute) and isinstance(base.value, ast.Name) and base.value.id in ("self", "cls"):
+                            shared.append(ast.unparse(tg))
+                        elif isinstance(base, ast.Name) and (base.id in alias or (base.id in module_names and (base.id not in local_stores or base.id in declared_global))):
+                            shared.append(ast.unparse(tg))
+                if not shared:
+                    continue
+                names = [tg.id for tg in a.targets if isinstance(tg, ast.Name)]
+                if isinstance(a.value, ast.Name):
+                    names.append(a.value.id)
+                for nm in names:
+                    n += 1
+                    later = []
+                    for x in nodes:
+                        if getattr(x, "lineno", 0) <= a.lineno:
+                            continue
+                        if isinstance(x, ast.Call) and isinstance(x.func, ast.Attribute) and isinstance(x.func.value, ast.Name) and x.func.value.id == nm and x.func.attr in MUTATORS:
+                            later.append(f"line {x.lineno}: {ast.unparse(x)[:50]}")
+                        if isinstance(x, (ast.Assign, ast.AugAssign)):
+                            for t2 in (x.targets if isinstance(x, ast.Assign) else [x.target]):
+                                if isinstance(t2, ast.Subscript) and isinstance(t2.value, ast.Name) and t2.value.id == nm:
+                                    later.append(f"line {x.lineno}: {ast.unparse(x)[:50]}")
+                                if isinstance(x, ast.AugAssign) and isinstance(t2, ast.Name) and t2.id == nm:
+                                    later.append(f"line {x.lineno}: {ast.unparse(x)[:50]}")
+                    rep.check(not later, R, site(un, q) + f" {shared[0]}", f"{ast.unparse(a)[:70]}  then  {'; '.join(later[:2])}" if later else ast.unparse(a)[:80],
+                              f"`{nm}` is complete when it is stored into the shared cache (no mutation of it afterwards in this function)",
+                              witness="two threads calling ctx.verify(pw, h, category='admin') for the first time: the second sees the record list while it is being filled and raises UnknownHashError for a hash whose scheme comes later in the list")
+    if n < 10:
+        rep.undecided(R, "<instance-count>", f"only {n} named values stored into shared caches found, expected at least 10")
+
+
 def run(model, rep):
     rep.explanation = __doc__
     rep.assumptions = ["CPython: attribute store/load are atomic; `with lock:` gives mutual exclusion and happens-before",
@@ -385,3 +443,4 @@ def run(model, rep):
     rule_b(model, rep)
     rule_cd(model, rep)
     rule_e(model, rep)
+    rule_f(model, rep)
